@@ -351,8 +351,98 @@ def run_env(ctx, name, cfg):
     ctx.problems[-1]["functions_scanned"] = st["functions"]
 
 
+# ---- plain per-call Python execution sees what the traced function sees -------------------------------------------------------------
+# `jit`, `vmap` and `scan` run the jaxpr traced from the function with EVERY state leaf abstracted to an array.  A plain Python call receives what the
+# previous call returned; where a state leaf is a Python scalar there (FlatPack's step_count/num_blocks, Tetris' is_reset, PacMan's initial positions),
+# Python-level arithmetic is executed on it instead of array primitives, and the two can differ (`~True == -2` is truthy, `~array(True)` is False).
+# Obligation: for every tuple of Python-scalar leaves met along eager rollouts (enumerated - stated bound) and ALL values of the array leaves and
+# actions (symbolic), step on the state holding those leaves as Python scalars returns the same as step on the state holding them as arrays.
+def _is_pyleaf(v):
+    return isinstance(v, (bool, int, float)) and not isinstance(v, (np.generic,))
+
+
+def run_kinds(ctx, name, cfg, steps):
+    env = E.ALL()[name][cfg]()
+    title = f"{name}.step@{cfg}"
+    key = jax.random.PRNGKey(ctx.seed)
+    state, ts = env.reset(key)
+    a0 = env.action_spec.generate_value()
+    # eager rollouts: generated action, all-zero action, and the spec's maximal action (often illegal): collect the Python-scalar tuples
+    seen, order = {}, []
+    acts = [a0, jax.tree_util.tree_map(jnp.zeros_like, a0)]
+    try:
+        mx = getattr(env.action_spec, "maximum", None)
+        if mx is not None:
+            acts.append(jnp.broadcast_to(jnp.asarray(mx, jnp.asarray(a0).dtype), jnp.shape(a0)))
+    except Exception:
+        pass
+    for act in acts:
+        s = state
+        for t in range(steps + 1):
+            leaves, treedef = jax.tree_util.tree_flatten(s)
+            tup = tuple((i, v) for i, v in enumerate(leaves) if _is_pyleaf(v))
+            sig = (treedef, tuple(i for i, _ in tup))
+            if tup and (sig, tup) not in seen:
+                seen[(sig, tup)] = s
+                order.append((sig, tup))
+            s, tsn = env.step(s, act)
+            if int(tsn.step_type) == 2:
+                leaves, treedef = jax.tree_util.tree_flatten(s)
+                tup = tuple((i, v) for i, v in enumerate(leaves) if _is_pyleaf(v))
+                if tup and ((treedef, tuple(i for i, _ in tup)), tup) not in seen:
+                    seen[((treedef, tuple(i for i, _ in tup)), tup)] = s
+                    order.append(((treedef, tuple(i for i, _ in tup)), tup))
+                break
+    ctx.structural(f"{title}/C02.eager_states_hold_python_scalars_only_where_enumerated", True, "eager rollouts (inventory)",
+                   detail={"python_scalar_leaf_tuples_enumerated": len(order),
+                           "leaves": sorted({jax.tree_util.keystr(jax.tree_util.tree_flatten_with_path(seen[k])[0][i][0]) for k in order for i, _ in k[1]})})
+    if not order:
+        return
+    for n, k in enumerate(order[: 12]):
+        ex = seen[k]
+        leaves, treedef = jax.tree_util.tree_flatten(ex)
+        py = dict(k[1])
+        arr_idx = [i for i in range(len(leaves)) if i not in py]
+        arr_leaves = [leaves[i] for i in arr_idx]
+
+        py_idx = sorted(py)
+
+        def build(arrs, pyvals):
+            full = list(leaves)
+            for j, i in enumerate(arr_idx):
+                full[i] = arrs[j]
+            for j, i in enumerate(py_idx):
+                full[i] = pyvals[j]
+            return jax.tree_util.tree_unflatten(treedef, full)
+
+        def ens(arrs, act):
+            pyvals = tuple(py[i] for i in py_idx)
+            o1 = env.step(build(arrs, pyvals), act)                                  # what a plain Python call computes
+            # what jit/vmap/scan compute: the same leaves enter as ARGUMENTS of a jitted function, i.e. as (weakly typed) traced arrays,
+            # exactly the abstraction jit applies to Python scalars in its inputs
+            o2 = jax.jit(lambda pv, ar, ac: env.step(build(ar, pv), ac))(pyvals, arrs, act)
+            out = {}
+            l1 = jax.tree_util.tree_flatten_with_path(o1)[0]
+            l2 = jax.tree_util.tree_leaves(o2)
+            for (pth, x), y in zip(l1, l2):
+                x, y = jnp.asarray(x), jnp.asarray(y)
+                if jnp.issubdtype(x.dtype, jax.dtypes.prng_key):
+                    x, y = jax.random.key_data(x), jax.random.key_data(y)
+                out["C02.plain_python_call_equals_traced_call" + jax.tree_util.keystr(pth)] = jnp.all(x == y)
+            out["canary.step_returns_a_first_timestep"] = o1[1].step_type == 0
+            return out
+
+        desc = ",".join(f"{jax.tree_util.keystr(jax.tree_util.tree_flatten_with_path(ex)[0][i][0])}={v}" for i, v in sorted(py.items()))[:90]
+        ctx.prove(f"{title}[python scalars {n}: {desc}]", (tuple(arr_leaves), a0), ens, lambda arrs, act: {"in_spec": E.in_spec(env, act)},
+                  targets=[type(env).step], merge_over=4, while_bound=16, expect_cover=True)
+
+
 def tasks(tier):
     out = {}
+    # (PacMan also returns Python scalars, but its step takes ~35 min to decide here: thorough tier only)
+    for name in ("FlatPack", "Tetris") if tier == "quick" else E.QUICK:
+        cfg = list(E.configs(name, tier))[0]
+        out[f"kinds:{name}@{cfg}"] = (run_kinds, {"name": name, "cfg": cfg, "steps": 6})
     for name in E.QUICK:
         cfgs = E.configs(name, tier)
         if tier == "quick":
@@ -365,7 +455,10 @@ def tasks(tier):
 LEVEL_TEXT = ("Proof of purity per configuration: the jaxprs JAX extracts from the real reset/step are effect-free (JAX's effect typing), identical across re-traces "
               "and across fresh instances (no hidden state), and the frame analysis (static AST scan for self/global writes + an instrumented trace that, by the "
               "path-uniqueness lemma, executes every Python statement any call can execute) shows that no argument, no object reachable from the environment and "
-              "no module global is written. Determinism of the function follows: a closed effect-free jaxpr is a mathematical function of its inputs. Agreement with "
-              "jit/vmap/scan then follows from JAX's meta-theory, which is assumed, not proved.")
+              "no module global is written. Determinism of the function follows: a closed effect-free jaxpr is a mathematical function of its inputs. Agreement of the "
+              "TRACED function with jit/vmap/scan follows from JAX's meta-theory (assumed). Agreement of PLAIN PYTHON execution with the traced function is an obligation "
+              "where it is not automatic: environments whose eager states carry Python scalars (FlatPack, Tetris; PacMan in the thorough tier) are proved, for every "
+              "tuple of such scalars met along eager rollouts (enumerated) and all array leaves and actions (symbolic), to return the same from step whether those "
+              "leaves enter as Python scalars or as jit arguments.")
 LEVEL_NOTE = ("jit/vmap/scan preservation and XLA are assumed (the part of the statement about program transformations is not mechanised here); float bit-equality "
               "between eager and jit is outside any contract; configurations enumerated; eager repeat/fresh-instance equality is a bounded stand-in.")
